@@ -10,7 +10,7 @@ open BS BS.Impl
 /-- **A missing or torn cache is brought back to exactly the state of an uninterrupted
 session.**  The source holds any valid history `xs`.  The cache of bucket size `B` is either
 absent, or what a session left of the bucket means of `xs` with its data file cut after ANY
-number of bytes (0 … intact) and its index in any legitimate prior state (absent, cut at any
+number of bytes of its region (0 … intact), or cut off inside its own file header (after the fix), and its index in any legitimate prior state (absent, cut at any
 byte, lagging).  `open_or_create` succeeds, and afterwards the cache's data file is byte for
 byte `header ++ encode (bucketMeans B xs)`, its index canonical, its accumulator holds the
 incomplete trailing bucket — for EVERY line count of the source (not only multiples of `B`),
@@ -87,6 +87,10 @@ theorem resume_point_exact (hdr ihdr : Bytes) (st : Store) (d : DataSess) (xs : 
         readRegion d.p cb proc ps (Spec.encode d.p xs) start (Spec.encode d.p xs).length full
           = foldProc proc ps (xs.drop k) :=
   lineOffset_spec hdr ihdr st d xs hinv hv k hk
+
+/-- a cache file shorter than its declared header is one of the covered states -/
+example (p B : Nat) (xs : List Entry) : CacheReopenOK p B xs { data := some [7] } :=
+  Or.inr (Or.inl (by simp [fileOpenExisting]))
 
 /-- non-vacuity: an absent cache is one of the covered states -/
 example (p B : Nat) (xs : List Entry) : CacheReopenOK p B xs {} := Or.inl ⟨rfl, rfl⟩
